@@ -11,6 +11,7 @@ Why(c) ==
   ELSE IF ~c.parses THEN "output-does-not-parse"
   ELSE IF ~OnlyPlaceholdersReplaced(c.P, c.tin, c.tout) THEN "something-other-than-the-placeholder-changed"
   ELSE IF ~Allowed(c.P, SetOf(c.cands), c.before, c.after) THEN "replacement-not-allowed"
+  ELSE IF ~OnlyInBookings(c.tin, c.tout, c.before, c.after) THEN "placeholder-text-replaced-outside-bookings"
   ELSE IF ~c.runsSame THEN "choice-differs-between-runs"
   ELSE IF ~c.inplaceSame THEN "inplace-differs-from-stdout"
   ELSE "ok"
